@@ -290,110 +290,112 @@ func runC02(r *Run) {
 
 	// R4 ------------------------------------------------------------------------------
 	r.rule("R4", "required parameters are non-empty; last non-greedy parameter stops at '/'; non-greedy multi-byte search refuses a '/' before the delimiter (E1)", func() {
-		f := gm
-		r.need(f != nil, "getMatch")
-		plen := callsMatching(f, false, nameIs(fiberMod+".findParamLen"))
-		r.need(len(plen) == 1, "getMatch calls findParamLen once")
-		cut := map[edge]bool{}
-		for _, br := range branchesIn(f) {
-			if loadOfField(br.Info.Root, "routeSegment.IsOptional") {
-				if s, ok := br.truthSlot(true); ok {
+		withoutHelpers(func() { // attribution rule: each construct belongs to the one function that contains it
+			f := gm
+			r.need(f != nil, "getMatch")
+			plen := callsMatching(f, false, nameIs(fiberMod+".findParamLen"))
+			r.need(len(plen) == 1, "getMatch calls findParamLen once")
+			cut := map[edge]bool{}
+			for _, br := range branchesIn(f) {
+				if loadOfField(br.Info.Root, "routeSegment.IsOptional") {
+					if s, ok := br.truthSlot(true); ok {
+						cut[edge{br.If.Block(), s}] = true
+					}
+				}
+			}
+			for _, br := range ifsOnValue(f, plen[0].Value()) {
+				if s, ok := br.eqIntSlot(0, false); ok {
 					cut[edge{br.If.Block(), s}] = true
 				}
 			}
-		}
-		for _, br := range ifsOnValue(f, plen[0].Value()) {
-			if s, ok := br.eqIntSlot(0, false); ok {
-				cut[edge{br.If.Block(), s}] = true
-			}
-		}
-		r.need(len(cut) >= 2, "getMatch branches on IsOptional and on the parameter length")
-		outer := rangeLoopsOverField(f, "routeParser.segs")
-		r.need(len(outer) == 1, "outer loop")
-		stores := storesIntoParamIndex(f, "params")
-		isStore := func(in ssa.Instruction) bool {
-			for _, s := range stores {
-				if s == in {
-					return true
+			r.need(len(cut) >= 2, "getMatch branches on IsOptional and on the parameter length")
+			outer := rangeLoopsOverField(f, "routeParser.segs")
+			r.need(len(outer) == 1, "outer loop")
+			stores := storesIntoParamIndex(f, "params")
+			isStore := func(in ssa.Instruction) bool {
+				for _, s := range stores {
+					if s == in {
+						return true
+					}
 				}
+				return false
 			}
-			return false
-		}
-		path, hit := reach(pointAfter(plen[0].Instr), orPred(mayReturnTrue, inBlock(outer[0].Block()), isStore), cut, nil)
-		r.check(hit == nil, "getMatch:required-empty", r.pos(plen[0].Instr),
-			"with IsOptional=false and length=0 neither the capture, nor acceptance, nor the next segment is reachable",
-			"a required parameter of length 0 can be accepted: "+pathString(r.P, path))
+			path, hit := reach(pointAfter(plen[0].Instr), orPred(mayReturnTrue, inBlock(outer[0].Block()), isStore), cut, nil)
+			r.check(hit == nil, "getMatch:required-empty", r.pos(plen[0].Instr),
+				"with IsOptional=false and length=0 neither the capture, nor acceptance, nor the next segment is reachable",
+				"a required parameter of length 0 can be accepted: "+pathString(r.P, path))
 
-		// last segment
-		ls := r.Fn("", "findParamLenForLastSegment")
-		idx := callsMatching(ls, false, nameIs("strings.IndexByte"))
-		okIdx := len(idx) == 1 && isConstInt(idx[0].Common.Args[1], '/')
-		if !okIdx {
-			r.bad("findParamLenForLastSegment:slash-search", r.fpos(ls), "no single strings.IndexByte(s, '/') call")
-		} else {
-			cut := map[edge]bool{}
-			for _, br := range branchesIn(ls) {
-				if loadOfField(br.Info.Root, "routeSegment.IsGreedy") {
-					if s, ok := br.truthSlot(true); ok {
+			// last segment
+			ls := r.Fn("", "findParamLenForLastSegment")
+			idx := callsMatching(ls, false, nameIs("strings.IndexByte"))
+			okIdx := len(idx) == 1 && isConstInt(idx[0].Common.Args[1], '/')
+			if !okIdx {
+				r.bad("findParamLenForLastSegment:slash-search", r.fpos(ls), "no single strings.IndexByte(s, '/') call")
+			} else {
+				cut := map[edge]bool{}
+				for _, br := range branchesIn(ls) {
+					if loadOfField(br.Info.Root, "routeSegment.IsGreedy") {
+						if s, ok := br.truthSlot(true); ok {
+							cut[edge{br.If.Block(), s}] = true
+						}
+					}
+				}
+				for _, br := range ifsOnValue(ls, idx[0].Value()) {
+					if s, ok := br.eqIntSlot(-1, true); ok {
 						cut[edge{br.If.Block(), s}] = true
 					}
 				}
-			}
-			for _, br := range ifsOnValue(ls, idx[0].Value()) {
-				if s, ok := br.eqIntSlot(-1, true); ok {
-					cut[edge{br.If.Block(), s}] = true
-				}
-			}
-			bad := ""
-			seen := 0
-			for b := range blocksReachable(ls.Blocks[0], cut, nil) {
-				if ret, ok := b.Instrs[len(b.Instrs)-1].(*ssa.Return); ok {
-					seen++
-					if retOperand(ret, 0) != idx[0].Value() {
-						bad = r.pos(ret)
+				bad := ""
+				seen := 0
+				for b := range blocksReachable(ls.Blocks[0], cut, nil) {
+					if ret, ok := b.Instrs[len(b.Instrs)-1].(*ssa.Return); ok {
+						seen++
+						if retOperand(ret, 0) != idx[0].Value() {
+							bad = r.pos(ret)
+						}
 					}
 				}
+				r.check(bad == "" && seen > 0 && len(cut) >= 2, "findParamLenForLastSegment:non-greedy-stops-at-slash", r.fpos(ls),
+					"non-greedy with a '/' present returns exactly the IndexByte result",
+					"non-greedy last parameter may return something other than the position of the first '/' ("+bad+")")
 			}
-			r.check(bad == "" && seen > 0 && len(cut) >= 2, "findParamLenForLastSegment:non-greedy-stops-at-slash", r.fpos(ls),
-				"non-greedy with a '/' present returns exactly the IndexByte result",
-				"non-greedy last parameter may return something other than the position of the first '/' ("+bad+")")
-		}
-		// multi-byte compare part
-		fp := r.Fn("", "findParamLen")
-		var slashIdx []callSite
-		for _, c := range callsMatching(fp, false, nameIs("strings.IndexByte")) {
-			if isConstInt(c.Common.Args[1], '/') {
-				slashIdx = append(slashIdx, c)
+			// multi-byte compare part
+			fp := r.Fn("", "findParamLen")
+			var slashIdx []callSite
+			for _, c := range callsMatching(fp, false, nameIs("strings.IndexByte")) {
+				if isConstInt(c.Common.Args[1], '/') {
+					slashIdx = append(slashIdx, c)
+				}
 			}
-		}
-		if len(slashIdx) == 0 {
-			r.bad("findParamLen:slash-in-non-greedy", r.fpos(fp), "no search for '/' inside the candidate capture of a non-greedy parameter")
-		}
-		for _, c := range slashIdx {
-			cut := map[edge]bool{}
-			for _, br := range branchesIn(fp) {
-				if loadOfField(br.Info.Root, "routeSegment.IsGreedy") {
-					if s, ok := br.truthSlot(true); ok {
+			if len(slashIdx) == 0 {
+				r.bad("findParamLen:slash-in-non-greedy", r.fpos(fp), "no search for '/' inside the candidate capture of a non-greedy parameter")
+			}
+			for _, c := range slashIdx {
+				cut := map[edge]bool{}
+				for _, br := range branchesIn(fp) {
+					if loadOfField(br.Info.Root, "routeSegment.IsGreedy") {
+						if s, ok := br.truthSlot(true); ok {
+							cut[edge{br.If.Block(), s}] = true
+						}
+					}
+				}
+				for _, br := range ifsOnValue(fp, c.Value()) {
+					if s, ok := br.eqIntSlot(-1, true); ok {
 						cut[edge{br.If.Block(), s}] = true
 					}
 				}
+				_, hit := reach(pointAfter(c.Instr), func(in ssa.Instruction) bool {
+					ret, ok := in.(*ssa.Return)
+					if !ok {
+						return false
+					}
+					n, isC := constInt(asConst(retOperand(ret, 0)))
+					return !(isC && n == 0)
+				}, cut, nil)
+				r.check(hit == nil, "findParamLen:slash-in-non-greedy", r.pos(c.Instr),
+					"non-greedy capture containing '/' yields length 0 (no match)", "a non-greedy capture containing '/' can yield a non-zero length")
 			}
-			for _, br := range ifsOnValue(fp, c.Value()) {
-				if s, ok := br.eqIntSlot(-1, true); ok {
-					cut[edge{br.If.Block(), s}] = true
-				}
-			}
-			_, hit := reach(pointAfter(c.Instr), func(in ssa.Instruction) bool {
-				ret, ok := in.(*ssa.Return)
-				if !ok {
-					return false
-				}
-				n, isC := constInt(asConst(retOperand(ret, 0)))
-				return !(isC && n == 0)
-			}, cut, nil)
-			r.check(hit == nil, "findParamLen:slash-in-non-greedy", r.pos(c.Instr),
-				"non-greedy capture containing '/' yields length 0 (no match)", "a non-greedy capture containing '/' can yield a non-zero length")
-		}
+		})
 	})
 }
 
